@@ -12,7 +12,7 @@
      CHttp      one call of IssuerResolver.Resolve against a stub http.RoundTripper.
      CCoerce    one call of coerceCredentialStatus.
      CHex       one call of merkletree.NewHashFromHex (validates the model's `hexf`
-                abstraction: hex_decode below is the model of that library function).
+                abstraction: Status.hex_decode is the model of that library function).
 
    Poseidon is a per-case table of PRIMITIVE calls (inputs -> output) recorded by the
    harness.  A miss answers -1, which is not a field element: it is not a key of any
@@ -158,52 +158,21 @@ Definition cls_of {A} (r : res A) : int :=
   | Diverge => 4%uint63
   end.
 
-(* ---- model of merkletree.NewHashFromHex on the *string members ----
-   strings.TrimPrefix(h, "0x"); hex.DecodeString (even length, [0-9a-fA-F]); exactly 32
-   bytes; the bytes are the little-endian form of the number. *)
-Definition hex_digit (c : ascii) : option Z :=
-  let n := Z.of_nat (nat_of_ascii c) in
-  if (48 <=? n) && (n <=? 57) then Some (n - 48)
-  else if (97 <=? n) && (n <=? 102) then Some (n - 87)
-  else if (65 <=? n) && (n <=? 70) then Some (n - 55)
-  else None.
-
-(* bytes of an even-length hex string, None = hex.DecodeString fails *)
-Fixpoint hex_bytes (s : string) : option (list Z) :=
-  match s with
-  | EmptyString => Some []
-  | String _ EmptyString => None
-  | String a (String b r) =>
-      match hex_digit a, hex_digit b, hex_bytes r with
-      | Some x, Some y, Some t => Some (16 * x + y :: t)
-      | _, _, _ => None
-      end
-  end.
-
-Fixpoint le_value (bs : list Z) : Z :=
-  match bs with [] => 0 | b :: r => b + 256 * le_value r end.
-
-Definition trim_0x (s : string) : string :=
-  match s with
-  | String "0" (String "x" r) => r
-  | _ => s
-  end.
-
-Definition hex_decode (s : string) : hexf :=
-  match hex_bytes (trim_0x s) with
-  | Some bs => if Nat.eqb (List.length bs) 32 then HVal (le_value bs) else HBad
-  | None => HBad
-  end.
-
 (* ---- evaluation ---- *)
 Section Eval.
 Variable q : Z.
 
+(* did the state hash that validate_tree_state asks for miss the table?  (the model
+   reaches that call only when State is set and the three roots decode) *)
 Definition ts_miss (P : list Z -> Z) (i : tree_state) : bool :=
-  match hex_or_zero (ts_ctr i), hex_or_zero (ts_rtr i), hex_or_zero (ts_ror i) with
-  | Ok c, Ok r, Ok o =>
-      match pos_hash P q [c; r; o] with Ok w => w =? miss | _ => false end
-  | _, _, _ => false
+  match ts_state i with
+  | HNil => false
+  | _ =>
+    match hex_or_zero (ts_ctr i), hex_or_zero (ts_rtr i), hex_or_zero (ts_ror i) with
+    | Ok c, Ok r, Ok o =>
+        match pos_hash P q [c; r; o] with Ok w => w =? miss | _ => false end
+    | _, _, _ => false
+    end
   end.
 
 Definition agree (c : scase) : bool :=
